@@ -572,6 +572,10 @@ func vFullPipe() (vPipe, error) {
 	return vPipe{r: p[0], w: p[1], dup: d}, nil
 }
 
+// vHangAfter: a scripted scenario normally takes a millisecond; on a heavily loaded machine the goroutines
+// involved have been seen to stall for seconds, so "did not return" means much longer than that.
+var vHangAfter = 30 * time.Second
+
 type vDialResult struct {
 	conn  *TCPConnection
 	err   error
@@ -659,7 +663,8 @@ func vRunScripted(ch vChooser, id int) (string, string) {
 	lateEvs := ""
 	preReg := -1 // descriptor the harness pre-registered to provoke EEXIST
 	wantReg := ch.reg()
-	var regFds []int // descriptors pre-registered so that connection.register fails with EEXIST
+	ctxBefore := false // the context was already done when the current attempt started waiting
+	var regFds []int   // descriptors pre-registered so that connection.register fails with EEXIST
 	remoteSA := &syscall.SockaddrInet4{Port: 9, Addr: [4]byte{127, 0, 0, 1}}
 	notes := ""
 
@@ -707,7 +712,7 @@ func vRunScripted(ch vChooser, id int) (string, string) {
 			tokenHeld = false
 		}
 	}
-	deadline := time.Now().Add(4 * time.Second)
+	deadline := time.Now().Add(vHangAfter)
 	var res vDialResult
 	hung := false
 	tick := time.NewTicker(100 * time.Microsecond)
@@ -754,6 +759,7 @@ loop:
 						}
 					}
 					waitingFirst = true
+					ctxBefore = fctx.fired()
 				}
 				r.rep <- vRep{errno: syscall.Errno(cur.e0)}
 			case "getsockopt":
@@ -872,6 +878,15 @@ loop:
 			curWake.pick = 'c'
 		case class == "closedByPeer":
 			curWake.pick = 'h'
+		}
+		// Events delivered under the held token while the goroutine had not yet left the select are events of
+		// this wake-up, not of the deferred Free: if the channel select took was made ready only by them, say so.
+		if cur != nil && cur.late != "" {
+			readyBy := map[byte]string{'h': "H", 'c': "DC", 'w': "W"}[curWake.pick]
+			if !strings.ContainsAny(curWake.evs, readyBy) && !(curWake.pick == 'c' && ctxBefore) && strings.ContainsAny(cur.late, readyBy) {
+				curWake.evs += cur.late
+				cur.late = ""
+			}
 		}
 	}
 	if preReg >= 0 {
@@ -1145,6 +1160,7 @@ func (q vRealReq) String() string {
 }
 
 type vRealEnv struct {
+	hung  bool
 	addrs map[string]string
 	out   *bufio.Writer
 	mu    sync.Mutex
@@ -1282,6 +1298,25 @@ func (e *vRealEnv) run(q vRealReq) {
 	sock0, slots0 := vSocketFds(), vSlotsInUse()
 	regs0 := len(vEpollRegs())
 	seq := q.conc == 1
+	// canary: how late does a 500us sleep wake up while this request runs (scheduling noise of the machine)
+	var jitterUs int64
+	stopCanary := make(chan struct{})
+	canaryDone := make(chan struct{})
+	go func() {
+		defer close(canaryDone)
+		for {
+			select {
+			case <-stopCanary:
+				return
+			default:
+			}
+			t0 := time.Now()
+			time.Sleep(500 * time.Microsecond)
+			if d := time.Since(t0).Microseconds() - 500; d > atomic.LoadInt64(&jitterUs) {
+				atomic.StoreInt64(&jitterUs, d)
+			}
+		}
+	}()
 	var wg sync.WaitGroup
 	var mu sync.Mutex
 	var conns []Connection
@@ -1332,7 +1367,20 @@ func (e *vRealEnv) run(q vRealReq) {
 			}
 		}(g)
 	}
-	wg.Wait()
+	allDone := make(chan struct{})
+	go func() { wg.Wait(); close(allDone) }()
+	limit := 20*time.Second + 10*time.Duration(q.timeoutUs)*time.Microsecond
+	select {
+	case <-allDone:
+	case <-time.After(limit):
+		// a dial that does not come back: report and give up (the goroutine cannot be recovered)
+		fmt.Fprintf(e.out, "real id=%d class=%s net=%s api=%s timeout_us=%d conc=%d hung after_us=%d\n", e.id, q.class, q.net, q.api, q.timeoutUs, q.conc, limit.Microseconds())
+		e.out.Flush()
+		e.hung = true
+		return
+	}
+	close(stopCanary)
+	<-canaryDone
 	for _, c := range conns {
 		c.Close()
 	}
@@ -1358,8 +1406,8 @@ func (e *vRealEnv) run(q vRealReq) {
 	if slotDelta < 0 {
 		slotDelta = -slotDelta + 1000
 	}
-	fmt.Fprintf(e.out, "real id=%d class=%s net=%s api=%s timeout_us=%d conc=%d batch=1 ret conn=0 err=batch timeout=0 expect_timeout=0 elapsed_us=0 usable=- openfds=%d slots=%d tmpreg=%d creg=0\n",
-		e.id, q.class, q.net, q.api, q.timeoutUs, q.conc, fdDelta, slotDelta, vB(regDelta != 0))
+	fmt.Fprintf(e.out, "real id=%d class=%s net=%s api=%s timeout_us=%d conc=%d batch=1 ret conn=0 err=batch timeout=0 expect_timeout=0 elapsed_us=0 usable=- openfds=%d slots=%d tmpreg=%d creg=0 jitter_us=%d\n",
+		e.id, q.class, q.net, q.api, q.timeoutUs, q.conc, fdDelta, slotDelta, vB(regDelta != 0), atomic.LoadInt64(&jitterUs))
 	e.out.Flush()
 }
 
@@ -1489,6 +1537,10 @@ func vRealMain(seed int64, tier, outPath, replay, dir string) int {
 	}
 	for _, q := range plan {
 		env.run(q)
+		if env.hung {
+			env.out.Flush()
+			return 3
+		}
 	}
 	env.out.Flush()
 	return 0
@@ -1547,6 +1599,9 @@ func vScriptedMain(seed int64, n int, opsOut, implOut, replay string) int {
 				if len(want) == 2 && len(got) == 2 && vStripFds(want[1]) == vStripFds(got[1]) {
 					break
 				}
+				if strings.HasPrefix(impl, "hung") {
+					break
+				}
 			}
 			emit(op, impl)
 			id++
@@ -1560,7 +1615,7 @@ func vScriptedMain(seed int64, n int, opsOut, implOut, replay string) int {
 		emit(op, impl)
 		if strings.HasPrefix(impl, "hung") {
 			// every hang costs seconds and is already a finding: a few are enough
-			if hangs++; hangs >= 3 {
+			if hangs++; hangs >= 2 {
 				break
 			}
 		}
